@@ -30,10 +30,13 @@ const PROP: &str = "C40";
 fn main() {
     let args = Args::parse();
     let mut rec = Recorder::new(&args.out);
-    vh::quiet_panics();
+    if std::env::var("VH_LOUD").is_err() {
+        vh::quiet_panics();
+    }
     if let Some(p) = &args.replay {
         let lines = vh::read_replay_input(p);
         sw::replay_cases(&mut rec, PROP, &lines);
+        sw::replay_mem_cases(&mut rec, PROP, &lines);
         rec.finish(args.seed, &args.tier);
         return;
     }
@@ -43,22 +46,23 @@ fn main() {
     let fixed: Vec<(Spec, usize)> = vec![
         // seal loop with failures at every position while another channel is added and removed
         (
-            Spec { cap: 2, keyseed: 21, wprog: vec![WOp::Add { dir: 1, par: 0 }, WOp::Add { dir: 2, par: 1 }, WOp::Rm(1)],
+            Spec { cap: 2, keyseed: 21, warm: 1, wprog: vec![WOp::Add { dir: 1, par: 0 }, WOp::Add { dir: 2, par: 1 }, WOp::Rm(1)],
                    rprogs: vec![vec![ROp::Setup { seal: true, x: 0 }, seal(0), seal(2), seal(0), seal(1), seal(0)]] },
             d(9, 12),
         ),
         (
-            Spec { cap: 3, keyseed: 22, wprog: vec![WOp::Add { dir: 1, par: 2 }, WOp::Add { dir: 1, par: 0 }, WOp::RmIf(Pred::IdGe(1)), WOp::Add { dir: 2, par: 0 }],
+            Spec { cap: 3, keyseed: 22, warm: 2, wprog: vec![WOp::Add { dir: 1, par: 2 }, WOp::Add { dir: 1, par: 0 }, WOp::RmIf(Pred::IdGe(1)), WOp::Add { dir: 2, par: 0 }],
                    rprogs: vec![vec![ROp::Setup { seal: true, x: 0 }, seal(2), seal(0), seal(0), seal(2), seal(0)]] },
             d(8, 11),
         ),
         // two contexts for two channels on two readers
         (
-            Spec { cap: 3, keyseed: 23, wprog: vec![WOp::Add { dir: 1, par: 0 }, WOp::Add { dir: 1, par: 1 }, WOp::RmIf(Pred::None), WOp::Add { dir: 1, par: 2 }],
+            Spec { cap: 3, keyseed: 23, warm: 2, wprog: vec![WOp::Add { dir: 1, par: 0 }, WOp::Add { dir: 1, par: 1 }, WOp::RmIf(Pred::None), WOp::Add { dir: 1, par: 2 }],
                    rprogs: vec![vec![ROp::Setup { seal: true, x: 0 }, seal(0), seal(1), seal(0)], vec![ROp::Setup { seal: true, x: 1 }, seal(0), seal(0)]] },
             d(6, 8),
         ),
     ];
     sw::drive(&mut rec, PROP, 2, &fixed, args.seed, args.budget(250, 4000), 10);
+    sw::drive_mem(&mut rec, PROP, args.seed, args.budget(300, 5000));
     rec.finish(args.seed, &args.tier);
 }
